@@ -21,7 +21,7 @@ func C16(r *core.Report) {
 		"R4 NewMultiReaderAt computes offsets as exclusive prefix sums (offsets[i] is stored before the size is added, starting from 0); " +
 		"R5 in MultiReaderAt.ReadAt io.EOF is returned only when the reached-end flag is known true, that flag is set only for the last segment's io.EOF, every other error is returned, and each segment is read at off minus that segment's own start; " +
 		"R6 in the split-car callback the decision to start a new piece is taken before the block's objects are written, the writing closures cannot reach it (a block with its objects lands in one piece), and the objects are written in the order children-then-block that they were collected in. " +
-		"R8 the header bytes the split command records are copied from the input stream (io.CopyN / ReadFull from the reader parameter), never produced by an encoder. R9 the output files of the split are created empty (os.Create, or OpenFile with O_TRUNC / O_EXCL). Not decided: concrete byte equality, size arithmetic, what carlet metadata from other tools contains."
+		"R8 the header bytes the split command records are copied from the input stream (io.CopyN / ReadFull from the reader parameter), never produced by an encoder. R9 the output files of the split are created empty (os.Create, or OpenFile with O_TRUNC / O_EXCL). R10 every block reaches the split callback, also one with no objects in front of it: the wrapper that invokes the callback skips it only when the group has no parent (same rule as C15.R7). Not decided: concrete byte equality, size arithmetic, what carlet metadata from other tools contains."
 	c16Accounting(r)
 	checkUvarintLenIdiom(r, "C16.R1", "accum", "main")
 	c16Pairing(r)
@@ -34,6 +34,8 @@ func C16(r *core.Report) {
 	if run := r.Anchor("C16.R7", "accum.(*ObjectAccumulator).Run"); run != nil {
 		bufferOwnership(r, "C16.R7", run)
 	}
+	// every block reaches the split callback, also one that has no objects in front of it (same rule as C15.R7)
+	parentAlwaysDelivered(r, "C16.R10")
 	r.Floor("C16.R7", 2)
 	r.Floor("C16.R1", 2)
 	r.Floor("C16.R2", 2)
@@ -817,6 +819,14 @@ func c16ReadAtEOF(r *core.Report) {
 				}
 				// i == len(<receiver>.<slice field>) - 1
 				for _, side := range []ast.Expr{be.X, be.Y} {
+					// the last index may be held in a local that is assigned once (`lastReader := len(m.readers) - 1`)
+					if id, isId := core.Unparen(side).(*ast.Ident); isId {
+						if o := info.Uses[id]; o != nil {
+							if d := singleDef(f, o); d != nil {
+								side = d
+							}
+						}
+					}
 					sub, ok := core.Unparen(side).(*ast.BinaryExpr)
 					if !ok || sub.Op != token.SUB {
 						continue
